@@ -321,14 +321,13 @@ impl chain::Listen for Gatekeeper {
         // Expired user deletion is delayed. Users are deleted when their subscription is outdated, not expired.
         let outdated_users = self.get_outdated_users(height);
         if !outdated_users.is_empty() {
-            // Remove the outdated users from memory first.
-            {
-                let mut registered_users = self.registered_users.lock().unwrap();
-                // Removing each outdated user in a loop is more efficient than retaining non-outdated users
-                // because retaining would loop over all the available users which is always more than the outdated ones.
-                for outdated_user in outdated_users.iter() {
-                    registered_users.remove(outdated_user);
-                }
+            // Remove the outdated users from memory first, and then from the database while still holding the users lock,
+            // so nobody can see (nor re-register) a user that is in one and not in the other.
+            let mut registered_users = self.registered_users.lock().unwrap();
+            // Removing each outdated user in a loop is more efficient than retaining non-outdated users
+            // because retaining would loop over all the available users which is always more than the outdated ones.
+            for outdated_user in outdated_users.iter() {
+                registered_users.remove(outdated_user);
             }
             self.dbm.lock().unwrap().batch_remove_users(&outdated_users);
         }
